@@ -567,7 +567,12 @@ func exec(op string) (res string) {
 	case "snapdec":
 		return execSnapdec(expand(w[1]))
 	case "snaprt":
-		return execSnapdec(expand(w[2]))
+		z := expand(w[2])
+		a := execSnapdec(z)
+		if strings.HasPrefix(a, "ok:") {
+			a += fmt.Sprintf(" dom=%v", snapInDomain(z))
+		}
+		return a
 	case "big", "bigx":
 		return execBig(w)
 	case "nego":
